@@ -37,6 +37,8 @@ type HarnessCfg struct {
 	BudgetS    int            `json:"budget_s,omitempty"`
 	Note       string         `json:"note,omitempty"`
 	Optional   bool           `json:"optional,omitempty"` // skip (and say so) if the harness function no longer type-checks
+	MaxPaths   int            `json:"max_paths,omitempty"`
+	SampleOnly bool           `json:"sample_only,omitempty"` // translator-validation harness: a path cap is not an incomplete verdict
 }
 
 type PropCfg struct {
@@ -434,7 +436,11 @@ func cmdCheck(args []string) {
 			if si > 0 {
 				ex.witnessN = 0
 			}
+			ex.maxPaths = hc.MaxPaths
 			st := ex.Run()
+			if hc.SampleOnly {
+				st.Incomplete = false
+			}
 			if si == 0 {
 				first = st
 				rep.Solver = sv
